@@ -137,9 +137,11 @@ ScopeWithinB(N, top, i, d) ==
 ScopeWithin(N, top, i) == {b \in ScopeWithinB(N, top, i, Len(N)) : ~(b[1] = "" /\ b[2] = "")}
 
 \* namespaces of names in Subtree(top) that no declaration inside the subtree, in scope at the name, binds
+\* (an attribute name needs a binding with a non-empty prefix)
 Unresolved(N, top) ==
     {N[x].ns : x \in {y \in Named(N, top) : N[y].ns # "" /\ N[y].ns # XmlNs
-                                           /\ ~\E b \in ScopeWithin(N, top, ScopeElem(N, y)) : b[2] = N[y].ns}}
+                                           /\ ~\E b \in ScopeWithin(N, top, ScopeElem(N, y)) :
+                                                  b[2] = N[y].ns /\ (N[y].k = "attr" => b[1] # "")}}
 
 Inherited(N, i) == IF N[i].p = 0 THEN {} ELSE {b \in InScope(N, N[i].p) : b[2] \in Unresolved(N, i)}
 
